@@ -51,6 +51,46 @@ func ruleErrChainUnwrap(w *World, r *Report, rule string) {
 				r.Fail(rule, con, tn.Pos(), "error type %s carries its cause in field %s but has no Unwrap() error: errors.Is/As cannot see through it", name, causeFields[0].Name())
 				continue
 			}
+			// a list of causes beside the cause ([]error): Unwrap must expose it as well
+			var listFields []*types.Var
+			for i := 0; i < st.NumFields(); i++ {
+				if sl, isSl := st.Field(i).Type().Underlying().(*types.Slice); isSl && isErrorType(sl.Elem()) {
+					listFields = append(listFields, st.Field(i))
+				}
+			}
+			usig := unwrap.Obj.Type().(*types.Signature)
+			returnsList := false
+			if usig.Results().Len() == 1 {
+				if sl, isSl := usig.Results().At(0).Type().Underlying().(*types.Slice); isSl && isErrorType(sl.Elem()) {
+					returnsList = true
+				}
+			}
+			if len(listFields) > 0 || returnsList {
+				mentioned := map[*types.Var]bool{}
+				uinfo := unwrap.Pkg.TypesInfo
+				ast.Inspect(unwrap.Decl.Body, func(n ast.Node) bool {
+					if sel, ok := n.(*ast.SelectorExpr); ok {
+						if fv := fieldOf(uinfo, sel); fv != nil {
+							mentioned[fv] = true
+						}
+					}
+					return true
+				})
+				bad := ""
+				if !returnsList && len(listFields) > 0 {
+					bad = fmt.Sprintf("error type %s carries a list of causes in field %s, but its Unwrap returns a single error: errors.Is/As see %s only - every other collected failure ('not found' beside a lifetime conflict) cannot be classified", name, listFields[0].Name(), causeFields[0].Name())
+				}
+				for _, lf := range listFields {
+					if returnsList && !mentioned[lf] {
+						bad = fmt.Sprintf("Unwrap of %s never hands out the list field %s", name, lf.Name())
+					}
+				}
+				if returnsList && len(listFields) == 0 && !mentioned[causeFields[0]] {
+					bad = fmt.Sprintf("Unwrap of %s never hands out the %s field", name, causeFields[0].Name())
+				}
+				r.Check(bad == "", rule, con, unwrap.Decl.Pos(), false, "Unwrap exposes the cause list", bad)
+				continue
+			}
 			// every return returns the cause field
 			okAll := true
 			info := unwrap.Pkg.TypesInfo
@@ -209,6 +249,11 @@ func ruleSentinelUse(w *World, r *Report, rule string) {
 				if p.Sel.Name == "Error" {
 					bad = "rendered to text with .Error()"
 				}
+			}
+			// inside the Error() string method of an error type whose Unwrap hands the same sentinel
+			// out, the text is only the message: the chain is kept by Unwrap
+			if bad != "" && strings.HasPrefix(bad, "rendered to text") && errorMethodWithUnwrapOf(w, fi, o) {
+				bad = ""
 			}
 			if bad != "" {
 				r.Fail(rule, con, n.Pos(), "sentinel %s is %s: callers can no longer match it with errors.Is", o.Name(), bad)
